@@ -171,7 +171,8 @@ def gen_profile(rng, k):
     kinds = ["current", "current-season", "current-weekday", "current-dev", "current-unc", "current-season-weekday",
              "legacy", "legacy-dev", "billing", "billing-season", "billing-dev", "billing-weekday", "legacy-season"]
     # the legacy kinds without developer mode are rejected on reload (finding C01-K1): visited, but rarely
-    kind = kinds[k % len(kinds)] if k < len(kinds) else rng.choice(kinds[:6] * 2 + kinds[7:12] * 2 + ["legacy", "legacy-season"])
+    kind = kinds[k % len(kinds)] if k < len(kinds) else rng.choice(
+        kinds[:6] * 2 + kinds[7:12] * 2 + ["legacy", "legacy-season", "current-weekday", "current-season-weekday", "billing-weekday"])
     base = kind.split("-")[0]
     u = {}
     if "season" in kind:
@@ -184,6 +185,8 @@ def gen_profile(rng, k):
         u["silent_developer_mode"] = True
         if rng.random() < 0.3:
             u["season"] = rand_season(rng)
+        if rng.random() < 0.4:
+            u["weekday_weekend"] = rand_week(rng)
     if "unc" in kind:
         u["uncertainty_alpha"] = rng.choice([0.05, 0.2, 0.32, 1, 0])
     return kind, base, u
@@ -262,7 +265,7 @@ def gen_doc(rng, k, splits, corner=False):
                     "warnings": [gen_warning(rng) for _ in range(rng.choice([0, 1, 1, 2]))]},
            "settings": st}
     case = {"k": k, "profile": kind, "cls": "billing" if base == "billing" else "daily", "doc": doc, "tamper": None,
-            "corner": corner}
+            "corner": corner, "base": base, "user": u}
     if not corner and k >= 26 and rng.random() < 0.22:
         how = rng.choice(TAMPERS)
         if how == "no-force" and base != "billing":
@@ -588,6 +591,77 @@ def oracle_roundtrip(obs, sig0):
     return out
 
 
+DEFAULT_SEASON = ["winter", "winter", "shoulder", "shoulder", "shoulder", "summer", "summer", "summer", "summer",
+                  "shoulder", "winter", "winter"]
+DEFAULT_WEEK = ["weekday"] * 5 + ["weekend"] * 2
+SEASON_CODE = {"su": "summer", "sh": "shoulder", "wi": "winter"}
+
+
+def stored_maps(settings):
+    """(season of month 1..12, day class of Monday..Sunday) as the stored settings tree says (missing key = class default)"""
+    se = settings.get("season") or {}
+    wk = settings.get("weekday_weekend") or {}
+    return ([se.get(m, DEFAULT_SEASON[i]) for i, m in enumerate(MONTHS)], [wk.get(d, DEFAULT_WEEK[i]) for i, d in enumerate(DAYS)])
+
+
+def expected_keys(doc, month, dow):
+    """the split keys of the document that cover a day of that month / weekday (Monday = 1) under the stored maps"""
+    seasons, week = stored_maps(doc["settings"])
+    out = []
+    for key in doc["submodels"]:
+        days, codes = key[:2], key[3:].split("_")
+        if seasons[month - 1] not in [SEASON_CODE.get(c) for c in codes]:
+            continue
+        if days == "fw" or (days == "wd" and week[dow - 1] == "weekday") or (days == "we" and week[dow - 1] == "weekend"):
+            out.append(key)
+    return out
+
+
+def constructor_made(cls, case):
+    """a model object as fit() leaves it, made WITHOUT from_dict: the real constructor of the profile with the user's
+    settings, then the stored parameters (what _create_params_from_fit_model builds), timezone, warnings, disqualification"""
+    from opendsm.eemeter.models.daily.parameters import DailyModelParameters
+    from opendsm.eemeter.common.warnings import EEMeterWarning
+    doc = case["doc"]
+    u = copy.deepcopy(case.get("user") or {})
+    with quiet():
+        m = cls(settings=u) if case["cls"] == "billing" else cls(model=case["base"], settings=u)
+    info = copy.deepcopy(doc["info"])
+    m.params = DailyModelParameters(submodels=copy.deepcopy(doc["submodels"]), settings=m.settings.model_dump(), info=info)
+    mk = lambda ws: [EEMeterWarning(qualified_name=w["qualified_name"], description=w["description"], data=w["data"]) for w in ws]
+    m.warnings, m.disqualification = mk(info["warnings"]), mk(info["disqualification"])
+    m.baseline_timezone = info["baseline_timezone"]
+    m.error = info["error"]
+    m.is_fitted = True
+    return m
+
+
+def day_rows(frame, step=29):
+    """every step-th predicted day of a predict() frame: [month, dow (Monday = 1), split key, T, predicted, unc, heating, cooling]"""
+    rows = []
+    ok = frame[frame["predicted"].notna()]
+    for i in range(0, len(ok), step):
+        r = ok.iloc[i]
+        t = ok.index[i]
+        rows.append([int(t.month), int(t.dayofweek) + 1, str(r["model_split"]), float(r["temperature"]), float(r["predicted"]),
+                     float(r["predicted_unc"]), float(r["heating_load"]), float(r["cooling_load"])])
+    return rows
+
+
+def routing_failures(doc, frame):
+    """days of a predict() frame whose model_split is not the sub-model the stored maps assign"""
+    bad = []
+    for t, key, p in zip(frame.index, frame["model_split"], frame["predicted"]):
+        if p != p:
+            continue
+        exp = expected_keys(doc, int(t.month), int(t.dayofweek) + 1)
+        if exp != [key]:
+            bad.append({"date": str(t), "month": int(t.month), "dow": int(t.dayofweek) + 1, "model_split": str(key), "expected": exp})
+            if len(bad) >= 3:
+                break
+    return bad
+
+
 # ----------------------------------------------------------------------------------------------------- stream A worker
 
 def run_docs(cases, seed):
@@ -633,10 +707,19 @@ def run_docs(cases, seed):
                         break
             o["preds"] = preds
             o["closed_form_fail"] = cf_fail
-            sets = [("sweep", lambda: daily_data(case["cls"], doc["info"]["baseline_timezone"])[0])]
-            if case["k"] % 3 == 0 or len(doc["submodels"]) > 2:
-                sets.append(("year", lambda: daily_data(case["cls"], doc["info"]["baseline_timezone"])[1]))
-            o["rt"] = roundtrip_obs(cls, M, sets, {"ignore_disqualification": True})[0]
+            tz = doc["info"]["baseline_timezone"]
+            with quiet():
+                year = M.predict(daily_data(case["cls"], tz)[1], ignore_disqualification=True)
+            o["days"] = day_rows(year)
+            o["routing_fail"] = routing_failures(doc, year)
+            # the statement's observations: the original is a constructor-made model (never went through from_dict)
+            # whenever the document is what a constructor's model stores, else the object from_dict built
+            sets = [("year", lambda: daily_data(case["cls"], tz)[1])]
+            if case["k"] % 2 == 0:
+                sets.append(("sweep", lambda: daily_data(case["cls"], tz)[0]))
+            original = constructor_made(cls, case) if case.get("tamper") is None and "base" in case else M
+            o["original"] = "constructor" if original is not M else "from_dict"
+            o["rt"] = roundtrip_obs(cls, original, sets, {"ignore_disqualification": True})[0]
         except Exception as e:
             o["crash"] = "%s: %s" % (type(e).__name__, traceback.format_exc()[-600:])
         out.append(o)
